@@ -1,7 +1,7 @@
 ------------------------------ MODULE Gen_ShapesH ------------------------------
 (***************************************************************************)
 (* The "structured holes" universe of C02 / C03 / C12: on the 10x10 lattice *)
-(* a square exterior with every ordered pair and triple of pairwise         *)
+(* a square (also an L- and a U-shaped) exterior with every ordered pair and triple of pairwise         *)
 (* disjoint holes from a catalogue of six (small, wide, tall, triangular;   *)
 (* the ORDER of the holes is part of the shape), and the shapes that probe  *)
 (* them: every lattice point, unit and full-width horizontal / vertical     *)
@@ -9,29 +9,42 @@
 (* PlanarGeneral (no witness grid of that size is needed).                  *)
 (***************************************************************************)
 EXTENDS Planar, TLC
-VARIABLES k, sel
+VARIABLES k, sel, ext
 M == 9
-Box(a, b, c, d) == <<<<a,b>>, <<c,b>>, <<c,d>>, <<a,d>>, <<a,b>>>>
-HoleCat == << Box(1,1,2,2), Box(4,4,5,5), Box(1,7,8,8), Box(7,1,8,6), <<<<3,1>>, <<6,1>>, <<6,3>>, <<3,1>>>>, Box(3,5,4,6) >>
-NH == Len(HoleCat)
 RSegs(r) == {SegAtS(r, i) : i \in 1..NSegS(r, TRUE)}
+Box(a, b, c, d) == <<<<a,b>>, <<c,b>>, <<c,d>>, <<a,d>>, <<a,b>>>>
+\* two of the six holes are concave (a dart and an L): a convex ring is tested point by point, a concave one segment by segment
+HoleCat == << Box(1,1,2,2), Box(4,4,5,5), Box(1,7,8,8), Box(7,1,8,6), <<<<3,1>>, <<6,1>>, <<5,2>>, <<6,3>>, <<3,1>>>>,
+              <<<<1,3>>, <<3,3>>, <<3,4>>, <<2,4>>, <<2,6>>, <<1,6>>, <<1,3>>>>,
+              \* a large U-shaped hole (it has lattice points strictly inside, and segments between them that leave it): only alone
+              <<<<1,1>>, <<8,1>>, <<8,8>>, <<6,8>>, <<6,3>>, <<3,3>>, <<3,8>>, <<1,8>>, <<1,1>>>> >>
+\* exteriors: the square, an L and a U (concave: segments between two interior points can leave the polygon)
+ExtCat == << Box(0, 0, M, M),
+             <<<<0,0>>, <<9,0>>, <<9,4>>, <<4,4>>, <<4,9>>, <<0,9>>, <<0,0>>>>,
+             <<<<0,0>>, <<9,0>>, <<9,9>>, <<6,9>>, <<6,3>>, <<3,3>>, <<3,9>>, <<0,9>>, <<0,0>>>> >>
+Fits(h, e) == /\ \A s \in RSegs(h) : \A t \in RSegs(e) : ~SegInter(s[1], s[2], t[1], t[2])
+              /\ InRingClosed(h[1], e)
+NH == Len(HoleCat)
 Apart(r1, r2) == /\ \A s \in RSegs(r1) : \A t \in RSegs(r2) : ~SegInter(s[1], s[2], t[1], t[2])
                  /\ ~InRingClosed(r1[1], r2) /\ ~InRingClosed(r2[1], r1)
-Ext == Box(0, 0, M, M)
-Init == k = 0 /\ sel = <<>>
-Next == \/ k = 0 /\ \E j \in 1..4 : k' = j /\ sel' = <<>>
-        \/ k = 1 /\ Len(sel) < 3 /\ \E h \in 1..NH : (\A i \in 1..Len(sel) : sel[i] # h /\ Apart(HoleCat[sel[i]], HoleCat[h]))
+Init == k = 0 /\ sel = <<>> /\ ext = 1
+Next == \/ k = 0 /\ \E j \in 1..4 : k' = j /\ sel' = <<>> /\ (IF j = 1 THEN ext' \in 1..Len(ExtCat) ELSE ext' = 1)
+        \/ k = 1 /\ Len(sel) < (IF ext = 1 THEN 3 ELSE 2) /\ UNCHANGED ext
+                 /\ \E h \in 1..NH : (\A i \in 1..Len(sel) : sel[i] # h /\ Apart(HoleCat[sel[i]], HoleCat[h])) /\ Fits(HoleCat[h], ExtCat[ext])
                                                     /\ sel' = Append(sel, h) /\ k' = k
-Spec == Init /\ [][Next]_<<k, sel>>
+Spec == Init /\ [][Next]_<<k, sel, ext>>
 P(s) == PrintT(ToString(<<"SHAPE", s>>))
 Emit ==
-   /\ (k = 1 /\ Len(sel) >= 1) => P(<<"poly", Ext, [i \in 1..Len(sel) |-> HoleCat[sel[i]]]>>)
+   /\ (k = 1 /\ (Len(sel) >= 1 \/ ext > 1)) => P(<<"poly", ExtCat[ext], [i \in 1..Len(sel) |-> HoleCat[sel[i]]]>>)
    /\ (k = 2) => \A x \in 0..M : \A y \in 0..M : P(<<"pt", <<x, y>>>>)
    /\ (k = 3) => /\ \A y \in 0..M : P(<<"line", <<<<0, y>>, <<M, y>>>>>>) /\ P(<<"line", <<<<y, 0>>, <<y, M>>>>>>)
                  /\ \A x \in 0..(M-1) : \A y \in 0..M : P(<<"line", <<<<x, y>>, <<x+1, y>>>>>>) /\ P(<<"line", <<<<y, x>>, <<y, x+1>>>>>>)
+                 /\ \A y \in 0..M : P(<<"line", <<<<2, y>>, <<7, y>>>>>>) /\ P(<<"line", <<<<y, 2>>, <<y, 7>>>>>>)
+                 /\ P(<<"line", <<<<2, 2>>, <<7, 7>>>>>>) /\ P(<<"line", <<<<2, 7>>, <<7, 2>>>>>>) /\ P(<<"line", <<<<2, 2>>, <<7, 4>>>>>>)
+                 /\ P(<<"line", <<<<2, 6>>, <<2, 2>>, <<7, 2>>, <<7, 6>>>>>>) /\ P(<<"line", <<<<2, 6>>, <<7, 6>>, <<7, 2>>>>>>)
                  /\ \A x \in 0..(M-2) : \A y \in 1..(M-1) : (x + y) % 3 = 0 => P(<<"line", <<<<x, y>>, <<x+2, y+1>>, <<x+2, y>>>>>>)
    /\ (k = 4) => /\ \A x \in 0..(M-1) : \A y \in 0..(M-1) : P(<<"rect", <<x, y>>, <<x+1, y+1>>>>)
                  /\ \A x \in 0..(M-2) : \A y \in 0..(M-2) : (x + y) % 2 = 0 => P(<<"rect", <<x, y>>, <<x+2, y+2>>>>)
                  /\ \A h \in 1..NH : P(<<"poly", HoleCat[h], <<>>>>)
-                 /\ P(<<"poly", Ext, <<>>>>) /\ P(<<"rect", <<0, 0>>, <<M, M>>>>) /\ P(<<"rect", <<1, 1>>, <<8, 8>>>>)
+                 /\ P(<<"poly", ExtCat[1], <<>>>>) /\ P(<<"rect", <<0, 0>>, <<M, M>>>>) /\ P(<<"rect", <<1, 1>>, <<8, 8>>>>)
 =============================================================================
